@@ -43,8 +43,11 @@ def _bounds(rng, reversible, finite_only, forced_p=0.08, inf_p=0.15):
         lo = rng.choice([F(1, 2), F(1), F(2)])
         hi = lo if rng.random() < 0.3 else lo + rng.choice([F(1), F(5), F(1000)])
         return show(lo), show(hi)
-    if r < forced_p + 0.04:                # fixed at zero / negative-only
-        return rng.choice([("0", "0"), ("-5", "-1"), ("-10", "0")])
+    if r < forced_p + 0.06:                # fixed at zero / negative-only / one side infinite
+        pool = [("0", "0"), ("-5", "-1"), ("-10", "0"), ("-1000", "-1/2")]
+        if not finite_only:
+            pool += [("-inf", "-1"), ("-inf", "0"), ("-inf", "-5"), ("1/2", "inf"), ("0", "inf"), ("-inf", "inf")]
+        return rng.choice(pool)
     u = up()
     if reversible:
         lo = up()
